@@ -1,6 +1,7 @@
 """C09 - nothing is written when any module fails, unless errors are ignored."""
 import ast
 
+from rules import common
 from vt.cfg import in_subtree, enclosing_trys
 from vt.model import walk_no_nested, norm, dotted_name
 from vt.runner import where, AnalysisError
@@ -323,8 +324,16 @@ def t1_typestate(chk):
     """typestate analysis of compile() (rules/compile_ts.py): end-to-end bookkeeping invariants for an arbitrary
     module over every outcome of every component call"""
     from rules import compile_ts
-    compile_ts.ts_rule(chk, 'C09.T1', ['abort', 'failed-pairing', 'stale-failure', 'failure-forgotten'])
+    compile_ts.ts_rule(chk, 'C09.T1', ['abort', 'failed-pairing', 'stale-failure', 'failure-forgotten', 'missing-reported'])
+
+
+
+def r6_closure_is_complete(chk):
+    """a missing module can only stop the writing if it is looked up at all: the work list must receive every
+    module an IMPORTS clause names (shared with C08.R1)"""
+    from rules.C08 import r1_worklist_growth
+    r1_worklist_growth(chk, rule='C09.R6')
 
 
 RULES = [r1_guard, r2_unprocessed_marking, r3_failed_only_forgotten_on_success, r4_write_loop_covers_all,
-         r5_failures_feed_the_guard, t1_typestate]
+         r5_failures_feed_the_guard, t1_typestate, r6_closure_is_complete]
